@@ -26,7 +26,7 @@ class P(drive_C10.P):
             'LineList), initial values unset / empty string / one / many, config/defaults supported or not (552), '
             'with and without default lines; a real TorConfig is bootstrapped over a real TorControlProtocol and every '
             'option is read; then 1-14 operations: CONF_CHANGED events with 1-4 lines carrying zero, one or many values '
-            'per option (a keyword-only line = reset to the default, for every declared type incl. booleans, integers and floats), reads with names in random case, socks_endpoint(), local assignments / in-place edits and '
+            'per option (a keyword-only line = reset to the default, for every declared type incl. booleans, integers and floats; in about a fifth of the events one more line whose value the declared numeric/boolean type cannot read, e.g. a Port-typed option set to auto - judged on the settled history, Spec.C11.settle), reads with names in random case, socks_endpoint(), local assignments / in-place edits and '
             'saves (accepted or rejected); after every event and save every option is read again. 70% of the cases '
             'are steered clear of the open finding classes; port lists unset / auto / one / many lines, with defaults from config/defaults or __<X>. '
             'non-trivial = bootstrap succeeded and at least one event; distinct = distinct case')
@@ -52,6 +52,7 @@ class P(drive_C10.P):
 
     # ------------------------------------------------------------------ generation
     _socks_name = False
+    unreadable = True     # events may carry a line whose value the declared type cannot read
 
     def _elem(self, rng, k):
         if k == 'KPorts' or self._socks_name:
@@ -156,7 +157,25 @@ class P(drive_C10.P):
             # interleave: move one line somewhere else (keys keep Tor's spelling)
             x = items.pop(rng.randrange(len(items)))
             items.insert(rng.randrange(len(items) + 1), x)
+        if self.unreadable and rng.random() < 0.22:
+            # an announced value the declared type cannot read (a Port-typed option set to "auto", a data size
+            # with its unit): the line goes to the implementation, Spec.C11.settle takes it out of the history
+            # that is judged - the option keeps its view, every other option of the event reads as announced
+            named = set(i[0] for i in items)
+            cand = [(cn, k) for cn, k in opts if cn not in named and k in ('KBool', 'KInt', 'KFloat', 'KBoolAuto')]
+            if cand and items:
+                cn, k = rng.choice(cand)
+                v = rng.choice(['1 GB', 'x', '0x10'] if k == 'KBoolAuto' else ['auto', 'auto', '1 GB', 'x'])
+                items.insert(rng.choice([0, 0, rng.randrange(len(items) + 1)]), [cn, v])
         return ['event', items]
+
+    def _event_readable(self, rng, opts, defaults=None):
+        # events delivered while a save is unanswered are not settled by Spec.C11.settle: readable values only
+        self.unreadable = False
+        try:
+            return self._event(rng, opts, defaults)
+        finally:
+            self.unreadable = True
 
     def _history11(self, rng, table, store, defaults, clean, n_ops):
         tab = [tuple(r) for r in table]
@@ -192,7 +211,7 @@ class P(drive_C10.P):
             elif r < 0.74:
                 op = ['save', None if rng.random() < 0.75 else rng.choice([552, 513])]
                 if rng.random() < 0.25:
-                    op = self._flight(rng, sim, opts, lists, event=lambda: self._event(rng, opts, defaults))
+                    op = self._flight(rng, sim, opts, lists, event=lambda: self._event_readable(rng, opts, defaults))
             elif r < 0.90:
                 op = ['read', casevar(rng, rng.choice(opts)[0])]
             elif r < 0.97 and has_socks:
@@ -200,7 +219,7 @@ class P(drive_C10.P):
             else:
                 op = ['needs_save']
             s2 = sim.clone()
-            s2.step(op)
+            s2.step(cfgdrive.settle_op(opts, op))
             if s2.fs:
                 continue
             if clean:
